@@ -219,6 +219,57 @@ def phase_mc(c, tier, g):
         g["selftest_mutants_rejected_by"] = dict(MUTANTS)
 
 
+def selftest_corruptions(doc, g):
+    """Oracle self-test: a recorded history with ONE projection falsified must be rejected, by the invariant that owns it."""
+    import copy
+    evs = doc["events"]
+    cases = []
+    idx = [i for i, e in enumerate(evs) if e["ev"] == "Block" and len(e.get("croot", [])) >= 2 and not e.get("desync")]
+    if idx:
+        d = copy.deepcopy(evs)
+        d[idx[-1]]["croot"] = d[idx[-1]]["croot"][:-1]
+        cases.append(("served-root", d, "XServedRoot", None))
+    idx = [i for i, e in enumerate(evs) if e["ev"] != "Mint" and e["ev"] != "Reset" and len(e["obs"]["cells"]) > 3]
+    if idx:
+        d = copy.deepcopy(evs)
+        d[idx[-1]]["obs"]["cells"].pop()
+        cases.append(("cell-row-missing", d, None, "cells"))
+    idx = [i for i, e in enumerate(evs) if e["ev"] not in ("Mint", "Reset") and e["pv"]["set"]]
+    if idx:
+        d = copy.deepcopy(evs)
+        d[idx[len(idx) // 2]]["pv"]["set"].pop()
+        cases.append(("proposal-view", d, "XViewIsWindow", None))
+    idx = [i for i, e in enumerate(evs) if e["ev"] == "Block" and not e.get("desync") and (e["detach"] > 0 or e["attach"])
+           and any(v == "proposed" for v in e["st"].values()) and e["tpl"]["parent"] >= 0]
+    if idx:
+        d = copy.deepcopy(evs)
+        e = d[idx[-1]]
+        e["tpl"]["props"] = sorted(set(e["tpl"]["props"]) | {t for t, v in e["st"].items() if v == "proposed"})
+        cases.append(("template-proposes-proposed-entry", d, "P_XTemplateFromPool", None))
+    idx = [i for i, e in enumerate(evs) if e["ev"] not in ("Mint", "Reset") and not e.get("desync") and any(v == "gap" for v in e["st"].values())]
+    if idx:
+        d = copy.deepcopy(evs)
+        e = d[idx[-1]]
+        t = next(t for t, v in e["st"].items() if v == "gap")
+        e["st"][t] = "pending"
+        e["cnt"]["gap"] -= 1
+        e["cnt"]["pending"] += 1
+        cases.append(("stage", d, "P_StageMatchesWindow", None))
+    out = {}
+    for name, d, inv, col in cases:
+        path = os.path.join(_wd("traces"), "selftest_%s.ndjson" % name)
+        write_trace(path, doc, d)
+        ok, res = _run_tlc_trace("selftest_" + name, path, BIG)
+        cols = re.search(r'<<\s*"OBS-MISMATCH",\s*\d+,\s*"(\w[\w-]*)",\s*\{([^}]*)\}', res["out"])
+        got = res["violated"] or (cols.group(2).replace('"', "").strip() if cols else None)
+        if ok or (inv and res["violated"] != inv) or (col and not (cols and col in cols.group(2))):
+            raise V.ToolError("growth-node oracle self-test failed: corruption %s -> accepted=%s, rejected by %s" % (name, ok, got))
+        out[name] = got
+    if len(out) < 4:
+        raise V.ToolError("growth-node oracle self-test: only %s could be placed" % list(out))
+    g["selftest_corrupted_histories_rejected_by"] = out
+
+
 def run_growth_node(c, tier):
     g = {}
     V.build_harness("g_node")
@@ -243,6 +294,8 @@ def run_growth_node(c, tier):
         with cf.ThreadPoolExecutor(max_workers=2 if tier == "quick" else 4) as ex:
             list(ex.map(lambda x: validate(c, "node_%d" % x[0], x[1], {"source": "g_node", "args": x[1]["summary"]}, stats),
                         list(enumerate(docs))))
+        if tier == "thorough" and not c.violations:
+            selftest_corruptions(max(docs, key=lambda d: len(d["events"])), g)
         for d in docs:
             evs = d["events"]
             c.case({"growth_node": d["summary"]["seed"], "profile": d["summary"]["profile"], "n": len(evs)},
